@@ -51,6 +51,33 @@ def gen_fields(rng, sysfields):
     return ("fields", [(k, rng.choice(vals)) for k in keys])
 
 
+def gen_facet(rng, mimes):
+    """JSON value of a facet member the way Graph (or a sloppy proxy) sends it: {} / members / null / non-object"""
+    r = rng.random()
+    if r < 0.7:
+        return ("obj", rng.choice(mimes), rng.random() < 0.5)     # {} when (None, False)
+    return ("null",) if r < 0.88 else ("other",)
+
+
+def facet_json(fc, inner):
+    if fc[0] == "null":
+        return None
+    if fc[0] == "other":
+        return True
+    d = {}
+    if fc[1] is not None:
+        d["mimeType"] = fc[1]
+    if fc[2]:
+        d.update(inner)
+    return d
+
+
+def mk_folder(rng, name, fid, ch):
+    return {"t": "folder", "name": name, "id": fid, "ffacet": gen_facet(rng, [None]),
+            "also_file": gen_facet(rng, [None, "x/y"]) if rng.random() < 0.1 else None,
+            "nulls": rng.random() < 0.5, "extras": rng.random() < 0.5, "ch": ch}
+
+
 def gen_file(rng, ids, sysfields, stamps_pool):
     opt = lambda v, p=0.2: None if rng.random() < p else v
     fid = ids()
@@ -58,8 +85,7 @@ def gen_file(rng, ids, sysfields, stamps_pool):
     stamp = lambda: rng.choice(stamps_pool) if rng.random() < 0.85 else rng.choice(ODD_STAMPS)
     return {"t": "file", "name": opt(nm, 0.08), "id": opt(fid, 0.05), "web": opt("https://contoso/" + fid),
             "dl": opt("https://dl/" + fid, 0.4), "size": opt(rng.choice([0, 1, 1234, 2 ** 40]), 0.3),
-            "mime": opt(rng.choice(["application/pdf", "text/plain"]), 0.3),
-            "file_shape": rng.choice(["obj", "obj", "nonobj"]),
+            "facet": gen_facet(rng, [None, None, "application/pdf", "text/plain"]), "extras": rng.random() < 0.5,
             "modified": opt(stamp(), 0.1), "created": opt(stamp(), 0.1), "fields": gen_fields(rng, sysfields),
             "nulls": rng.random() < 0.5}
 
@@ -73,9 +99,8 @@ def gen_tree(rng, ids, sysfields, depth, max_children, stamps_pool, healthy_ids=
             out.append(gen_file(rng, ids, sysfields, stamps_pool))
         elif r < 0.85 and depth > 0:
             nm = rng.choice(NAMES)
-            out.append({"t": "folder", "name": nm if rng.random() > 0.04 else None, "id": ids(),
-                        "also_file": rng.random() < 0.1, "nulls": rng.random() < 0.5,
-                        "ch": gen_tree(rng, ids, sysfields, depth - 1, max_children, stamps_pool)})
+            out.append(mk_folder(rng, nm if rng.random() > 0.04 else None, ids(),
+                                 gen_tree(rng, ids, sysfields, depth - 1, max_children, stamps_pool)))
         elif r < 0.93:
             out.append({"t": "junk"})
         else:
@@ -259,9 +284,9 @@ def gen_qcase(rng, ids, sysfields, pool):
     for nm in top:
         sub = rng.choice([x for x in QNAMES if x != nm])
         inner = files(rng.randint(1, 2))
-        ch = files(rng.randint(1, 3)) + [{"t": "folder", "name": sub, "id": ids(), "also_file": False, "ch": inner}]
+        ch = files(rng.randint(1, 3)) + [mk_folder(rng, sub, ids(), inner)]
         rng.shuffle(ch)
-        tree.append({"t": "folder", "name": nm, "id": ids(), "also_file": False, "ch": ch})
+        tree.append(mk_folder(rng, nm, ids(), ch))
         paths += [nm, nm + "/" + sub]
     rng.shuffle(tree)
     chosen = rng.sample(paths, rng.randint(1, 3)) + (["nope/" + top[0]] if rng.random() < 0.3 else [])
@@ -297,10 +322,10 @@ def item_json(n):
                 d[key] = n[fld]
             elif n.get("nulls") and key != "size":
                 d[key] = None            # JSON null instead of a missing key
-        if n["file_shape"] == "obj":
-            d["file"] = {"mimeType": n["mime"]} if n["mime"] is not None else {"hashes": {}}
-        else:
-            d["file"] = True
+        d["file"] = facet_json(n["facet"], {"hashes": {"quickXorHash": "abc="}})
+        if n.get("extras"):
+            d.update({"eTag": "\"{1},2\"", "parentReference": {"driveId": "b!x", "path": "/drive/root:"},
+                      "fileSystemInfo": {"createdDateTime": "2024-01-01T00:00:00Z"}, "@odata.type": "#microsoft.graph.driveItem"})
         kind, fl = n["fields"]
         if kind == "listitem-not-object":
             d["listItem"] = "x"
@@ -310,15 +335,17 @@ def item_json(n):
             d["listItem"] = {"id": "7", "fields": {k: v for k, v in fl}}
         return d
     if n["t"] == "folder":
-        d = {"folder": {"childCount": len(n["ch"])}}
+        d = {"folder": facet_json(n["ffacet"], {"childCount": len(n["ch"])})}
+        if n.get("extras"):
+            d.update({"cTag": "c", "parentReference": {"id": "p"}, "size": 0, "webUrl": "https://contoso/f"})
         if n["name"] is not None:
             d["name"] = n["name"]
         elif n.get("nulls"):
             d["name"] = None
         if n["id"] is not None:
             d["id"] = n["id"]
-        if n.get("also_file"):
-            d["file"] = {}
+        if n.get("also_file") is not None:
+            d["file"] = facet_json(n["also_file"], {"hashes": {}})
         return d
     if n["t"] == "junk":
         return {"name": "pkg", "id": "junk", "package": {"type": "oneNote"}}
@@ -341,7 +368,7 @@ def path_url(base, site, drive, p):
     return f"{base}/sites/{site}/drives/{drive}/root:/{enc}"
 
 
-def build_table(base, site_api, site, drive, tree, paging):
+def build_table(base, site_api, site, drive, tree, paging, fin=()):
     table = {site_api: {"id": site, "displayName": "verif"}}
 
     def add(url, obj):
@@ -354,7 +381,7 @@ def build_table(base, site_api, site, drive, tree, paging):
         for n, link in paging.get(oid, []):
             add(url, {"value": items[:n], "@odata.nextLink": link})
             url, items = link, items[n:]
-        add(url, {"value": items})
+        add(url, {"value": items, "@odata.nextLink": ""} if oid in fin else {"value": items})   # present but empty: the end
     folder(None, tree)
 
     def rec(t):
@@ -392,7 +419,7 @@ class FakeResp:
     def getcode(self):
         return self._status
 
-    def read(self):
+    def read(self, amt=None):      # http.client.HTTPResponse.read(amt=None)
         if self._read_exc is not None:
             raise self._read_exc
         return self._body
@@ -480,7 +507,7 @@ def ref_custom(n, sysfields):
 
 def ref_meta(n, parent, sysfields):
     return {"name": n["name"] or "", "id": n["id"] or "", "web": n["web"] or "", "dl": n["dl"], "size": n["size"],
-            "mime": n["mime"] if n["file_shape"] == "obj" else None, "modified": n["modified"], "created": n["created"],
+            "mime": n["facet"][1] if n["facet"][0] == "obj" else None, "modified": n["modified"], "created": n["created"],
             "parent": parent or None, "custom": ref_custom(n, sysfields)}
 
 
@@ -629,13 +656,20 @@ def c_ostr(x):
     return coq_opt(x, coq_str)
 
 
+def c_facet(fc):
+    if fc[0] == "null":
+        return "FcNull"
+    if fc[0] == "other":
+        return "FcOther"
+    return f"(FcObj {c_ostr(fc[1])} {coq_bool(fc[2])})"
+
+
 def c_fitem(n):
     kind, fl = n["fields"]
     fields = "None" if kind != "fields" else "(Some " + coq_list([f"({coq_str(k)}, {coq_str(canon_val(v))})" for k, v in fl]) + ")"
-    mime = n["mime"] if n["file_shape"] == "obj" else None
-    return ("{| i_name := %s; i_id := %s; i_web := %s; i_dl := %s; i_size := %s; i_mime := %s; i_modified := %s; "
+    return ("{| i_name := %s; i_id := %s; i_web := %s; i_dl := %s; i_size := %s; i_facet := %s; i_modified := %s; "
             "i_created := %s; i_fields := %s |}" % (c_ostr(n["name"]), c_ostr(n["id"]), c_ostr(n["web"]), c_ostr(n["dl"]),
-                                                   coq_opt(n["size"], coq_Z), c_ostr(mime), c_ostr(n["modified"]),
+                                                   coq_opt(n["size"], coq_Z), c_facet(n["facet"]), c_ostr(n["modified"]),
                                                    c_ostr(n["created"]), fields))
 
 
@@ -643,7 +677,8 @@ def c_node(n):
     if n["t"] == "file":
         return f"File {c_fitem(n)}"
     if n["t"] == "folder":
-        return f"Folder {c_ostr(n['name'])} {c_ostr(n['id'])} {coq_list([c_node(c) for c in n['ch']])}"
+        fc = f"({c_facet(n['ffacet'])}, {coq_opt(n['also_file'], c_facet)})"
+        return f"Folder {c_ostr(n['name'])} {c_ostr(n['id'])} {fc} {coq_list([c_node(c) for c in n['ch']])}"
     return "JunkDict" if n["t"] == "junk" else "NonDict"
 
 
@@ -933,7 +968,8 @@ def run(ctx):
                 paging = gen_paging(rng, tree, base, SITE, rng.choice(["single", "one", "any"]))
             if flt is None:
                 drive = None
-            table = build_table(base, site_api, SITE, drive, tree, paging)
+            fin = {oid for oid in paging if rng.random() < 0.2}
+            table = build_table(base, site_api, SITE, drive, tree, paging, fin)
             rec.glob, rec.iso = {}, {}
             client_mod.fnmatch, client_mod.datetime = rec.fn, rec.dt
             bits = rng.getrandbits(16)
@@ -962,7 +998,7 @@ def run(ctx):
             nfolders = sum(1 for _ in folders_of_tree(tree))
             for o in observations:
                 nontriv = (nfolders >= 2 and any(len(v) >= 1 for v in paging.values())) or any(k >= 1 for k, _ in o["faults"])
-                ctx.case((c_node({"t": "folder", "name": None, "id": None, "ch": tree}), sorted(map(str, paging.items())),
+                ctx.case((c_node({"t": "folder", "name": None, "id": None, "ffacet": ("null",), "also_file": None, "ch": tree}), sorted(map(str, paging.items())),
                           repr(flt), o["faults"]), nontriv,
                          kind=("healthy" if not o["faults"] else "fault:" + o["faults"][0][1][0]) + (":filtered" if flt else ":all"))
             coq_obs = [c_obs(o) for o in observations]
